@@ -518,6 +518,42 @@ pub fn record_shape(seed: u64, tier: &str, out: &str) {
             // iterative drop: Box<TreapNode> drops recursively along the height only, fine when balanced
         }
     }
+    // (iii) several treaps filled round-robin from the one per-thread priority stream: a treap then receives every
+    // k-th priority, which defeats generators whose k-decimated streams are ordered (additive / low-discrepancy
+    // sequences at Fibonacci strides, counters, ...)
+    let ks: Vec<usize> = {
+        let mut v: Vec<usize> = vec![2, 3, 4, 5, 7, 8, 10, 13, 16, 21, 34, 55, 64, 89, 100, 144, 233, 256, 377, 610, 987, 1000, 1024, 1597, 2048];
+        if thorough {
+            v.extend_from_slice(&[2584, 4181, 6765, 10946, 4096, 5000, 16384]);
+        }
+        v
+    };
+    for &k in &ks {
+        // power-of-two strides are where a power-of-two-modulus LCG is weakest: give those treaps more nodes
+        let per = if k.is_power_of_two() && k >= 512 { if thorough { 3000 } else { 2500 }.min(6_000_000 / k) }
+                  else { if thorough { 600 } else { 250 }.min(400_000 / k).max(60) };
+        let mut ts: Vec<Treap<TItem>> = (0..k).map(|_| Treap::new()).collect();
+        for round in 0..per {
+            for (i, tr) in ts.iter_mut().enumerate() {
+                match (k + i) % 3 {
+                    0 => tr.insert_at(round, TItem::new(1)),  // sorted append
+                    1 => tr.insert_at(0, TItem::new(1)),      // front insertion
+                    _ => {
+                        // built by from_item + merge at the back
+                        let old = std::mem::replace(tr, Treap::new());
+                        *tr = Treap::merge(old, Treap::from_item(TItem::new(1)));
+                    }
+                }
+            }
+        }
+        // the three worst treaps of the group by height
+        let mut hs: Vec<(usize, usize)> = ts.iter().enumerate().map(|(i, tr)| (walk(&tr.root).0, i)).collect();
+        hs.sort();
+        for &(_, i) in hs.iter().rev().take(3) {
+            ckpt(&mut t, &ts[i], &format!("{} treaps filled round-robin", k));
+            checkpoints += 1;
+        }
+    }
     let ev = t.finish();
     println!("{}", json!({"events": ev, "runs": checkpoints, "max_n": sizes[sizes.len() - 1]}));
 }
@@ -624,4 +660,16 @@ pub fn record_race(seed: u64, threads: usize, draws: usize, out: &str) {
     }
     let ev = t.finish();
     println!("{}", json!({"events": ev, "threads": threads, "draws_per_thread": draws}));
+}
+
+pub fn probe(k: usize, per: usize) {
+    let mut ts: Vec<Treap<TItem>> = (0..k).map(|_| Treap::new()).collect();
+    for round in 0..per {
+        for tr in ts.iter_mut() {
+            tr.insert_at(round, TItem::new(1));
+        }
+    }
+    let mut hs: Vec<usize> = ts.iter().map(|tr| walk(&tr.root).0).collect();
+    hs.sort();
+    println!("k={} per={} max height {} median {} bound {}", k, per, hs[hs.len() - 1], hs[hs.len() / 2], 5.0 * ((per + 1) as f64).log2() + 20.0);
 }
